@@ -60,6 +60,7 @@ type c25Case struct {
 	Path  string   `json:"path"`
 	Tuple c25Tuple `json:"tuple"`
 	Line  string   `json:"candidate,omitempty"`
+	Stage string   `json:"stage,omitempty"` // part B only; "" = the first remote offer, not answered
 }
 
 func (t c25Tuple) extShape() string {
@@ -392,6 +393,8 @@ type c25Env struct {
 	t     *testing.T
 	c     *vkit.Check
 	api   *API
+	apiV  *API               // as api, on a virtual network without interfaces (nothing is gathered)
+	older SessionDescription // an offer of the same peer shape with ANOTHER ufrag (the previous ICE generation)
 	offer SessionDescription
 	grace int64 // remaining 1 ms re-polls before a wanted candidate is reported lost
 }
@@ -680,13 +683,158 @@ func (e *c25Env) ufragClause(k c25Core, lists [][]c25Ext, path string) {
 	}
 }
 
+// c25Stages are further states in which part B is judged (besides "the first remote offer, not answered"):
+//
+//	stable                 the offer was answered: its description is the CURRENT remote description
+//	restart-offer-pending  an exchange with the previous ICE generation (another ufrag) is complete, and the
+//	                       offer - an ICE restart - is applied and not answered: it is the PENDING remote description
+//
+// In both the applied remote description names c25RemoteUfrag. The transports are running here, so the
+// goroutine barrier of ufragClause cannot be used; the judgement is one-sided and needs no barrier: a candidate
+// that must be added has to show up in the agent (polled, generous deadline), and once all of those are there a
+// candidate that must be dropped must not be there (presence is definitive, absence is not judged).
+var c25Stages = []string{"stable", "restart-offer-pending"}
+
+func (e *c25Env) stagedAnswerer(stage string) *PeerConnection {
+	pc := vNewPC(e.t, e.apiV, nil)
+	answer := func() {
+		a, err := pc.CreateAnswer(nil)
+		if err != nil {
+			vkit.Fatalf(e.t, "CreateAnswer: %v", err)
+		}
+		if err := pc.SetLocalDescription(a); err != nil {
+			vkit.Fatalf(e.t, "SetLocalDescription: %v", err)
+		}
+	}
+	switch stage {
+	case "stable":
+		if err := pc.SetRemoteDescription(e.offer); err != nil {
+			vkit.Fatalf(e.t, "SetRemoteDescription: %v", err)
+		}
+		answer()
+	case "restart-offer-pending":
+		if err := pc.SetRemoteDescription(e.older); err != nil {
+			vkit.Fatalf(e.t, "SetRemoteDescription (previous generation): %v", err)
+		}
+		answer()
+		if err := pc.SetRemoteDescription(e.offer); err != nil {
+			vkit.Fatalf(e.t, "SetRemoteDescription (restart offer): %v", err)
+		}
+	}
+	if rd := pc.RemoteDescription(); rd == nil || !strings.Contains(rd.SDP, "a=ice-ufrag:"+c25RemoteUfrag+"\r\n") {
+		vkit.Fatalf(e.t, "stage %s: the applied remote description does not carry the configured ufrag", stage)
+	}
+
+	return pc
+}
+
+func (e *c25Env) ufragClauseStaged(stage string, k c25Core, lists [][]c25Ext, path string) {
+	c := e.c
+	pc := e.stagedAnswerer(stage)
+	defer func() { _ = pc.Close() }()
+	const base = 3000
+	type sent struct {
+		t    c25Tuple
+		line string
+	}
+	var all []sent
+	for i, ext := range lists {
+		k.Port = base + i
+		t := k.tuple(ext)
+		rc := c25Case{Part: "B", Path: path, Tuple: t, Stage: stage}
+		var (
+			src ice.Candidate
+			err error
+		)
+		if path == "ice-constructors" {
+			src, err = t.viaICE()
+		} else {
+			src, err = ice.UnmarshalCandidate(t.line())
+		}
+		if err != nil {
+			vkit.Fatalf(e.t, "part B candidate not constructible: %v", err)
+		}
+		cand, err := newICECandidateFromICE(src, "0", 0)
+		if err != nil {
+			vkit.Fatalf(e.t, "part B candidate not convertible: %v", err)
+		}
+		init := cand.ToJSON()
+		rc.Line = init.Candidate
+		c.Eval()
+		var addErr error
+		c.Guard("B|"+stage+"|"+init.Candidate, rc, func() { addErr = pc.AddICECandidate(init) })
+		if addErr != nil {
+			c.Violation(c25Key("B-rejected|stage="+stage, nil, t), fmt.Sprintf("stage %s: AddICECandidate(%q) returned %v", stage, init.Candidate, addErr), rc)
+
+			continue
+		}
+		all = append(all, sent{t, init.Candidate})
+	}
+	wantAdded := func(t c25Tuple) bool {
+		for _, x := range t.Ext {
+			if x.K == "ufrag" && x.V != c25RemoteUfrag {
+				return false
+			}
+		}
+
+		return true
+	}
+	fetch := func() map[int]bool {
+		out := map[int]bool{}
+		agent := pc.iceTransport.gatherer.getAgent()
+		if agent == nil {
+			return out
+		}
+		cs, err := agent.GetRemoteCandidates()
+		if err != nil {
+			return out
+		}
+		for _, x := range cs {
+			out[x.Port()] = true
+		}
+
+		return out
+	}
+	got := fetch()
+	deadline := time.Now().Add(60 * time.Second)
+	for time.Now().Before(deadline) {
+		missing := false
+		for _, s := range all {
+			missing = missing || (wantAdded(s.t) && !got[s.t.Port])
+		}
+		if !missing {
+			break
+		}
+		time.Sleep(time.Millisecond)
+		got = fetch()
+	}
+	for _, s := range all {
+		rc := c25Case{Part: "B", Path: path, Tuple: s.t, Line: s.line, Stage: stage}
+		switch {
+		case wantAdded(s.t) && !got[s.t.Port]:
+			c.Violation(fmt.Sprintf("B-lost|stage=%s|typ=%s|ext=%s", stage, s.t.Typ, s.t.extShape()),
+				fmt.Sprintf("stage %s: AddICECandidate(%q) returned nil but the candidate did not reach the ICE agent within 60 s (the applied remote description names ufrag %s)", stage, s.line, c25RemoteUfrag), rc)
+			c.Outcome("B-lost|" + stage)
+		case wantAdded(s.t):
+			c.Outcome("B-added|" + stage)
+			c.Distinct(fmt.Sprintf("B|added|stage=%s|%s|%s|%s|%s", stage, path, s.t.Typ, s.t.Proto, s.t.extShape()))
+		case got[s.t.Port]:
+			c.Violation(fmt.Sprintf("B-not-dropped|stage=%s|ext=%s", stage, s.t.extShape()),
+				fmt.Sprintf("stage %s: %q names a ufrag that is in no applied remote description (%s) but the candidate reached the ICE agent", stage, s.line, c25RemoteUfrag), rc)
+			c.Outcome("B-not-dropped|" + stage)
+		default:
+			c.Outcome("B-not-seen-in-the-agent|" + stage)
+		}
+	}
+}
+
 func TestVerifC25(t *testing.T) { //nolint:cyclop
 	c := vkit.New("C25", "exploration")
 	defer c.Finish(t)
 	// quick: lists of <= 1 extension on every core tuple and <= 2 on the core
 	// tuples with the middle port/priority/component/foundation; thorough: <= 3 everywhere
 	maxA, maxAll, maxB := c.Pick(2, 3), c.Pick(1, 3), c.Pick(2, 3)
-	c.Rule("tuples = type {host,srflx,prflx,relay} x protocol {udp,tcp} x address {IPv4, IPv6, mDNS name (host)} x port {1,9,65535} x priority {computed,1,2^32-1} x component {1,2} x foundation {computed,'1',32 ice-chars} x TCP type {none; host: active,passive,so} x related {none; non-host: addr/port} x every ordered extension list of <= L entries with pairwise different keys over {ufrag,generation,network-cost,x} x values {'', 'a', the remote ufrag, the remote ufrag in the other case, the remote ufrag plus one character}; each tuple along two construction paths (ice constructors + AddExtension; ice.UnmarshalCandidate of a composed candidate line). Part A: ToJSON accepted by AddICECandidate and parsed back (ice.UnmarshalCandidate + own tokenizer) against the tuple. Part B: unique port per case, the ICE agent's remote candidates inspected: present with the tuple's fields unless a ufrag extension names no ufrag of the remote description. distinct = (part, path, type, protocol, address form, TCP type, related, extension-list shape) that held")
+	c.Rule("tuples = type {host,srflx,prflx,relay} x protocol {udp,tcp} x address {IPv4, IPv6, mDNS name (host)} x port {1,9,65535} x priority {computed,1,2^32-1} x component {1,2} x foundation {computed,'1',32 ice-chars} x TCP type {none; host: active,passive,so} x related {none; non-host: addr/port} x every ordered extension list of <= L entries with pairwise different keys over {ufrag,generation,network-cost,x} x values {'', 'a', the remote ufrag, the remote ufrag in the other case, the remote ufrag plus one character}; each tuple along two construction paths (ice constructors + AddExtension; ice.UnmarshalCandidate of a composed candidate line). Part A: ToJSON accepted by AddICECandidate and parsed back (ice.UnmarshalCandidate + own tokenizer) against the tuple. Part B: unique port per case, the ICE agent's remote candidates inspected: present with the tuple's fields unless a ufrag extension names no ufrag of the remote description; part B again where the offer is the current remote description (answered) and where it is an ICE-restart offer pending on top of a completed exchange with another ufrag (one-sided: must-add candidates reach the agent, and then no must-drop candidate is there). distinct = (part, path, type, protocol, address form, TCP type, related, extension-list shape) that held")
 	c.Set("max_extension_list_len_part_A", maxA)
 	c.Set("max_extension_list_len_part_A_on_every_core_tuple", maxAll)
 	c.Set("max_extension_list_len_part_B", maxB)
@@ -716,6 +864,21 @@ func TestVerifC25(t *testing.T) { //nolint:cyclop
 		vkit.Fatalf(t, "offer does not carry the configured ufrag")
 	}
 	env.offer = offer
+	env.apiV = vNewAPI(t, vAPIOpts{virtualNet: true, setting: func(s *SettingEngine) { s.LoggerFactory = lf }})
+	{
+		oldAPI := vNewAPI(t, vAPIOpts{virtualNet: true, setting: func(s *SettingEngine) {
+			s.LoggerFactory = lf
+			s.SetICECredentials("c25Previous", "c25PasswordOfThePreviousGeneration")
+		}})
+		old := vNewPC(t, oldAPI, nil)
+		if _, err := old.CreateDataChannel("c25", nil); err != nil {
+			vkit.Fatalf(t, "CreateDataChannel: %v", err)
+		}
+		if env.older, err = old.CreateOffer(nil); err != nil {
+			vkit.Fatalf(t, "CreateOffer: %v", err)
+		}
+		_ = old.Close()
+	}
 
 	paths := []string{"ice-constructors", "parsed-line"}
 	cores := c25Cores()
@@ -731,6 +894,13 @@ func TestVerifC25(t *testing.T) { //nolint:cyclop
 		var rc c25Case
 		if err := json.Unmarshal(raw, &rc); err != nil {
 			vkit.Fatalf(t, "replay case: %v", err)
+		}
+		if rc.Part == "B" && rc.Stage != "" {
+			tp := rc.Tuple
+			env.ufragClauseStaged(rc.Stage, c25Core{tp.Typ, tp.Proto, tp.AddrForm, tp.Port, tp.Priority, tp.Component, tp.Foundation, tp.TCPType, tp.RelAddr != ""},
+				[][]c25Ext{tp.Ext}, rc.Path)
+
+			return
 		}
 		if rc.Part == "B" {
 			tp := rc.Tuple
@@ -763,6 +933,18 @@ func TestVerifC25(t *testing.T) { //nolint:cyclop
 			env.ufragClause(k, listsB, p)
 		}
 	}
+
+	// ---- part B in further states (after the barrier-based part: these PeerConnections run transports)
+	c.Set("part_B_further_stages", c25Stages)
+	for _, stage := range c25Stages {
+		for _, k := range bcores {
+			for _, p := range paths {
+				env.ufragClauseStaged(stage, k, listsB, p)
+			}
+		}
+	}
+	e2 := env.settle()
+	_ = e2
 
 	// ---- part A
 	var sampled int32
